@@ -130,9 +130,17 @@ def spline_cases(ctx, nspl):
     r = ctx.rng; H = hexf; lines = []; meta = []; hist = {}
     for c in range(nspl):
         deg = r.choice((1, 3, 3, 5, 7)); n = r.randint(deg + 3, 40)
-        uniform = r.random() < 0.35
+        style = r.choice(('uniform', 'uniform', 'random', 'random', 'random', 'cluster-start-long-last', 'cluster-end-long-first', 'geometric-up', 'geometric-down', 'two-clusters'))
+        if style in ('cluster-start-long-last', 'cluster-end-long-first', 'geometric-up', 'geometric-down', 'two-clusters'): n = r.randint(deg + 3, 50)
+        uniform = style == 'uniform'
+        if style in ('uniform', 'random'): gaps = [(0.25 if uniform else r.uniform(0.05, 0.8)) for i in range(n - 1)]
+        elif style == 'cluster-start-long-last': gaps = [r.uniform(0.01, 0.05) for i in range(n - 2)] + [r.uniform(3, 30)]
+        elif style == 'cluster-end-long-first': gaps = [r.uniform(3, 30)] + [r.uniform(0.01, 0.05) for i in range(n - 2)]
+        elif style == 'geometric-up': q = r.uniform(1.15, 1.6); gaps = [0.01 * q ** i for i in range(n - 1)]
+        elif style == 'geometric-down': q = r.uniform(1.15, 1.6); gaps = [0.01 * q ** (n - 2 - i) for i in range(n - 1)]
+        else: k = r.randint(1, max(1, n - 3)); gaps = [r.uniform(0.01, 0.05) for i in range(k)] + [r.uniform(5, 20)] + [r.uniform(0.01, 0.05) for i in range(n - 2 - k)]
         xs = [r.uniform(-3, 3)]
-        for i in range(n - 1): xs.append(xs[-1] + (0.25 if uniform else r.uniform(0.05, 0.8)))
+        for g in gaps: xs.append(xs[-1] + g)
         amp = 10 ** r.uniform(-1, 1); w = r.uniform(0.3, 2)
         ys = [amp * (math.sin(w * v) + 0.3 * r.uniform(-1, 1)) for v in xs]
         kind = r.choice(('interpolating', 'interpolating', 'smoothing', 'smoothing', 'gcv'))
@@ -144,10 +152,14 @@ def spline_cases(ctx, nspl):
             i = r.randrange(1, n - 1); ts.append(xs[i] + r.choice((-1, 1)) * 1e-9)
         ts += [r.uniform(xs[0], xs[-1]) for _ in range(5)]
         ts += [xs[0] + r.random() * (xs[deg] - xs[0]), xs[-1] - r.random() * (xs[-1] - xs[-1 - deg])]      # boundary intervals
+        if not uniform and style != 'random':          # strongly non-uniform knots: a point inside EVERY interval (the interval search is hint + bisection)
+            ts += [xs[i] + r.uniform(0.05, 0.95) * (xs[i + 1] - xs[i]) for i in range(n - 1)]
+        else:
+            ts += [xs[0] + r.uniform(0.05, 0.95) * (xs[1] - xs[0]), xs[-2] + r.uniform(0.05, 0.95) * (xs[-1] - xs[-2])]   # first and last interval
         ts = [min(max(t, xs[0]), xs[-1]) for t in ts]
         lines.append(' '.join([str(deg), str(mode), H(param), str(n)] + [H(v) for v in xs + ys] + [str(len(ts))] + [H(v) for v in ts]))
         meta.append((deg, n, xs, ts))
-        for tag in ('degree/%d' % deg, 'fit/' + kind, 'knots/' + ('uniform' if uniform else 'random')): hist[tag] = hist.get(tag, 0) + 1
+        for tag in ('degree/%d' % deg, 'fit/' + kind, 'knots/' + style): hist[tag] = hist.get(tag, 0) + 1
     return lines, meta, hist
 
 def spline_correspondence(ctx, nspl):
